@@ -127,6 +127,27 @@ func (e *Engine) LoadContracts(libDir string) error {
 		}
 		e.files = append(e.files, cf)
 	}
+	// package-level relevance: the proof of a property leans on every contract of the packages its code lives in
+	for _, cf := range e.files {
+		for _, r := range cf.Relev {
+			for _, cf2 := range e.files {
+				rel := strings.TrimPrefix(cf2.PkgPath, "github.com/yandex/pandora/")
+				if rel != r[0] && !strings.HasPrefix(rel, r[0]+"/") {
+					continue
+				}
+				for _, b := range cf2.Blocks {
+					if b.Kind != "func" && b.Kind != "struct" && b.Kind != "lemma" || b.Flags["inline"] || b.Flags["trusted"] {
+						continue
+					}
+					for _, p := range r[1:] {
+						if !b.HasProp(p) {
+							b.Props = append(b.Props, p)
+						}
+					}
+				}
+			}
+		}
+	}
 	for _, cf := range e.files {
 		for _, b := range cf.Blocks {
 			var k string
